@@ -508,10 +508,46 @@ def rule_environment_cannot_fail(prog, fixture=False):
     return r
 
 
+# ---------------------------------------------------------------- R-C18-7
+def rule_show_config_region(prog, fixture=False):
+    r = RuleResult("R-C18-7", "what runs only under --show-config cannot change the drive table: every method it "
+                   "calls on objects declared outside the region is a const method (and has no mutable members or "
+                   "const_cast to write through)", floor=0 if fixture else 1)
+    for fn in prog.functions.values():
+        if fn.name != "main" and not fixture:
+            continue
+        for n in fn.walk():
+            if n.get("k") != "IfStmt":
+                continue
+            cond = strip_all(n["c"][n["parts"]["cond"]])
+            if cond is None or cond.get("k") != "DeclRefExpr" or cond.get("n") not in ("show_config",):
+                continue
+            then = n["c"][n["parts"]["then"]]
+            local_ids = {x["d"] for x in walk(then) if x.get("k") == "VarDecl"}
+            for x in walk(then):
+                if x.get("k") != "CXXMemberCallExpr":
+                    continue
+                callee = strip(x["c"][0])
+                obj = callee["c"][0] if callee and callee.get("c") else None
+                root = flow.lvalue_root(obj) if obj is not None else None
+                if root in local_ids:
+                    continue
+                for t in prog.call_targets(fn, x):
+                    key = "%s::%s::show-config::%s" % (fn.relfile(), fn.qn, t.name)
+                    const = bool(t.raw.get("const"))
+                    casts = [y for y in t.walk() if y.get("k") == "CXXConstCastExpr"]
+                    ok = const and not casts
+                    r.add(key, fn.loc(x), ok, "const method" if ok else
+                          "%s is called under --show-config on `%s` and is %s: the diagnostic can alter the state the "
+                          "command then works on (e.g. add empty drives to the table)" %
+                          (t.qn, show(obj)[:30], "not a const method" if not const else "casting constness away"))
+    return r
+
+
 def run(ctx):
     prog = ctx.prog("dfs", "N")
     return [rule_layering(prog), rule_verbose_regions(prog), rule_option_handlers(prog),
-            rule_presentation_inputs(prog), rule_environment_cannot_fail(prog)]
+            rule_presentation_inputs(prog), rule_environment_cannot_fail(prog), rule_show_config_region(prog)]
 
 
 SELFTESTS = [
